@@ -36,6 +36,7 @@ import (
 
 type Clause struct {
 	Kind  string // requires ensures invariant step decreases assume
+	Label string // optional "@label" right after the kind / tag: names the obligations of this clause
 	Text  string
 	Expr  ast.Expr
 	Props []string
@@ -58,6 +59,7 @@ type FuncContract struct {
 	TracksOvf   bool
 	Trusted     bool
 	Inline      bool
+	EstablishesGlobalInvs bool // package initialiser: every globalinv is a post-condition
 	NoBody      bool // only contract used at call sites; body not checked in this run
 	File        string
 	Line        int
@@ -65,6 +67,7 @@ type FuncContract struct {
 	EntryLets   [][2]string         // name, expression: evaluated once in the entry state
 	FrameProps  []string            // properties owning the frame obligations
 	FnParams    map[string][]string // function-typed parameter -> heaps it may write
+	NoRead      []string            // heaps (T.f) that neither the function nor anything it calls may load
 	Unproved    [][2]string         // obligation-name substring, reason: generated obligation is out of reach and only assumed (listed, never counted)
 	ASTParams   bool                // assume the AST invariant for interface / slice parameters
 	FnType      string              // non-empty: contract of every function value of this signature
@@ -99,7 +102,15 @@ type ReplacerSpec struct {
 	Line   int
 }
 
+type PackageInv struct {
+	Kind  string // noglobalwrites
+	Props []string
+	File  string
+	Line  int
+}
+
 type Contracts struct {
+	PackageInvs []*PackageInv
 	TypeInvs   map[string][]*Clause
 	Replacers  []*ReplacerSpec
 	GlobalInvs []*Clause
@@ -167,6 +178,14 @@ func loadContracts(dir string) (*Contracts, error) {
 				rp.Quote = strings.TrimSpace(strings.TrimPrefix(strings.TrimSpace(r), "quote"))
 				cs.Replacers = append(cs.Replacers, rp)
 				cur = nil
+			case "packageinv":
+				kind, r := splitWord(rest)
+				pi := &PackageInv{Kind: kind, File: filepath.Base(fn), Line: i + 1}
+				if m := tagRe.FindStringSubmatch(strings.TrimSpace(r)); m != nil {
+					pi.Props = splitProps(m[1])
+				}
+				cs.PackageInvs = append(cs.PackageInvs, pi)
+				cur = nil
 			case "typeinv":
 				// typeinv T : expr over self
 				tn, r := splitWord(rest)
@@ -209,6 +228,12 @@ func loadContracts(dir string) (*Contracts, error) {
 					cur.Props = splitProps(rest)
 				case "safety":
 					cur.SafetyProps = splitProps(rest)
+				case "noread":
+					for _, m := range strings.Split(rest, ",") {
+						if m = strings.TrimSpace(m); m != "" {
+							cur.NoRead = append(cur.NoRead, m)
+						}
+					}
 				case "unproved":
 					pat, reason := rest, ""
 					if k := strings.Index(rest, " : "); k >= 0 {
@@ -234,6 +259,10 @@ func loadContracts(dir string) (*Contracts, error) {
 				case "tracks":
 					if strings.TrimSpace(rest) == "ovf" {
 						cur.TracksOvf = true
+					}
+				case "establishes":
+					if strings.TrimSpace(rest) == "globalinvs" {
+						cur.EstablishesGlobalInvs = true
 					}
 				case "astparams":
 					cur.ASTParams = true
@@ -268,6 +297,10 @@ func loadContracts(dir string) (*Contracts, error) {
 					if m := tagRe.FindStringSubmatch(r); m != nil {
 						c.Props = splitProps(m[1])
 						r = r[len(m[0]):]
+					}
+					if strings.HasPrefix(r, "@") {
+						lb, rest2 := splitWord(r)
+						c.Label, r = strings.TrimPrefix(lb, "@"), strings.TrimSpace(rest2)
 					}
 					c.Text = r
 					switch word {
